@@ -278,6 +278,16 @@ FIXED_PROGRAMS = [
     ('ddl_commit_mid', 'ddl', [['raw_insert', 62, 1], ['commit'], ['create_T', 81], ['select']]),
     ('ddl_read_write', 'ddl', [['select'], ['update_T', 1, 82], ['m2m_add', 3, 2]]),
     ('ddl_raise', 'ddl', [['raw_update', 1, 12], ['raise']]),
+    # the error is CAUGHT inside the session and the session goes on (retry-on-locked pattern), then more writes, then a failure
+    ('retry_first_write', 'optimistic', [['try', ['raw_insert', 70, 1]], ['raw_insert', 71, 1], ['create_T', 90], ['raise']]),
+    ('retry_after_read', 'optimistic', [['select'], ['try', ['raw_update', 1, 13]], ['raw_update', 2, 23], ['create_T', 91], ['raise']]),
+    ('retry_after_read_ok', 'optimistic', [['select'], ['try', ['raw_insert', 72, 1]], ['raw_insert', 73, 1], ['update_T', 1, 94]]),
+    ('retry_flush', 'optimistic', [['select'], ['create_T', 92], ['try', ['flush']], ['flush'], ['raw_insert', 74, 1], ['raise']]),
+    ('retry_oflush', 'optimistic', [['select'], ['try', ['oflush_update', 1, 95]], ['oflush_create', 93], ['raw_insert', 1, 99]]),
+    ('retry_bulk', 'optimistic', [['raw_select'], ['try', ['bulk_delete', 3]], ['bulk_delete', 3], ['create_T', 94], ['raise']]),
+    ('retry_rawconn', 'optimistic', [['select'], ['try', ['rawconn_insert', 75, 1]], ['rawconn_insert', 76, 1], ['raise']]),
+    ('retry_after_commit', 'optimistic', [['create_T', 95], ['commit'], ['try', ['raw_insert', 77, 1]], ['raw_insert', 78, 1], ['raise']]),
+    ('retry_for_update', 'optimistic', [['select'], ['try', ['for_update', 1]], ['update_T', 1, 96], ['raw_insert', 1, 99]]),
     ('read_only', 'optimistic', [['select'], ['raw_select']]),
     ('empty', 'immediate', []),
 ]
@@ -337,6 +347,8 @@ def random_program(rng):
             prog.append(['for_update', rng.choice(ts)])
         else:
             prog.append([rng.choice(['bulk_delete', 'bulk_delete', 'query_delete']), rng.randint(0, 9)])
+    for i in range(len(prog)):
+        if prog[i][0] not in ('try', 'raise', 'rollback', 'commit', 'db_commit') and rng.random() < 0.12: prog[i] = ['try', prog[i]]
     if rng.random() < 0.08: prog.append(['raise'])
     return prog
 
@@ -386,7 +398,9 @@ def run_case(template, workdir, case):
     exc = None
     try:
         with E.db_session(**SESSION_OPTS[case['opts']]):
-            for op in case['program']: run_op(E, op, st)
+            for si_, op in enumerate(case['program']):
+                STEP[0], STEP[1] = si_, op[0] == 'try'
+                run_op(E, op, st)
     except BaseException as e:
         exc = e
     tr.clear_faults()
@@ -395,7 +409,7 @@ def run_case(template, workdir, case):
     out = {'pre': pre, 'exc': type(exc).__name__ if exc is not None else None, 'exc_text': repr(exc)[:300] if exc is not None else None,
            'rollback_op': bool(st.get('rollback')), 'swallowed': st.get('swallowed', 0),
            'events': [{'call': e['call'], 'kind': e['kind'], 'con': e['con'], 'outcome': e['outcome'], 'injected': e['injected'],
-                       'sql': (e['sql'] or '')[:60], 'entry': e.get('entry'), 'flush_id': e.get('flush_id'), 'in_commit': e.get('in_commit'), 'locking': e.get('locking'), 'auto_flush': e.get('auto_flush'),
+                       'sql': (e['sql'] or '')[:60], 'entry': e.get('entry'), 'flush_id': e.get('flush_id'), 'in_commit': e.get('in_commit'), 'locking': e.get('locking'), 'auto_flush': e.get('auto_flush'), 'step': e.get('step'), 'caught': bool(e.get('caught')),
                        'stack': e.get('stack')} for e in events if e['i'] is not None],
            'rec': rec}
     moments = {f[0]: f[2] for f in case['faults']}
@@ -507,7 +521,9 @@ def _child_session(template, path, case, kill):
     st = {}
     try:
         with E.db_session(**SESSION_OPTS[case['opts']]):
-            for op in case['program']: run_op(E, op, st)
+            for si_, op in enumerate(case['program']):
+                STEP[0], STEP[1] = si_, op[0] == 'try'
+                run_op(E, op, st)
     except Exception:
         pass
 
@@ -516,6 +532,7 @@ def _child_session(template, path, case, kill):
 # write entry points: which function of pony/orm/core.py sends each statement (Python stack at the DB-API call)
 # ---------------------------------------------------------------------------------------------------------------------
 
+STEP = [None, False]       # [index of the program step being run, it sits inside the user's try/except]
 RAWCONN = [False]          # a write on the connection returned by Database.get_connection() is under way (set by run_op)
 ENTRY_BY_QUALNAME = {'Database.execute': 'dbExecute', 'Database.insert': 'dbInsert', 'Entity._save_created_': 'saveCreated',
                      'Entity._save_updated_': 'saveUpdated', 'Entity._save_deleted_': 'saveDeleted', 'Set.remove_m2m': 'm2mRemove',
@@ -542,6 +559,7 @@ def attribute(ev):
             if q == 'Query._actual_fetch' and getattr(f.f_locals.get('query'), '_for_update', False): ev['locking'] = True
         f = f.f_back
     if RAWCONN[0] and ev.get('entry') is None: ev['entry'] = 'rawConn'
+    ev['step'], ev['caught'] = STEP[0], STEP[1]
     ev['stack'] = chain[:6]
 
 
@@ -551,17 +569,17 @@ def emit_request(case, obs):
     if case['faults'] or obs['exc'] is not None or obs['swallowed'] or obs['rollback_op']: return None
     if any(e['outcome'] != 'ok' for e in obs['events']): return None
     prog, real = [], []
-    cur = None                       # open flush group: [flush_id, in_commit, entries, auto-flush inside prepare_connection]
+    cur = None                       # open flush group: [flush_id, in_commit, entries, auto-flush inside prepare_connection, in user's try/except]
     def close_group(then=None):
         """then: the statement whose prepare_connection ran this flush (auto-flush), as ['query'|'lockQuery'] or ['direct', entry]"""
         nonlocal cur
         if cur is not None:
             if cur[3] and then is not None:
-                if then[0] == 'direct': prog.append([['flushDirect', cur[2], then[1]], False])
-                else: prog.append([['flushQuery', cur[2], then[0] == 'lockQuery'], False])
+                if then[0] == 'direct': prog.append([['flushDirect', cur[2], then[1]], cur[4]])
+                else: prog.append([['flushQuery', cur[2], then[0] == 'lockQuery'], cur[4]])
                 cur = None
                 return True
-            prog.append([['commit' if cur[1] else 'flush', cur[2]], False]); cur = None
+            prog.append([['commit' if cur[1] else 'flush', cur[2]], cur[4]]); cur = None
         return False
     for e in obs['events']:
         call, kind = e['call'], e['kind']
@@ -572,7 +590,7 @@ def emit_request(case, obs):
             real.append(['commit', True])
             if cur is not None and cur[1]: close_group()
             else:
-                close_group(); prog.append([['commit', []], False])
+                close_group(); prog.append([['commit', []], bool(e.get('caught'))])
             continue
         if kind == 'begin': real.append(['begin', True]); continue
         write = call == 'executemany' or kind in ('insert', 'update', 'delete')
@@ -580,17 +598,17 @@ def emit_request(case, obs):
         if not write:
             if e['flush_id'] is None:
                 q = ['lockQuery' if e.get('locking') else 'query']
-                if not close_group(q): prog.append([q, False])
+                if not close_group(q): prog.append([q, bool(e.get('caught'))])
             else:
                 return None          # a query from a hook inside flush: not an op of the model
             continue
         if e['entry'] is None: return 'unknown-entry'
         if e['flush_id'] is not None:
             if cur is None or cur[0] != e['flush_id']:
-                close_group(); cur = [e['flush_id'], bool(e['in_commit']), [], bool(e.get('auto_flush'))]
+                close_group(); cur = [e['flush_id'], bool(e['in_commit']), [], bool(e.get('auto_flush')), bool(e.get('caught'))]
             cur[2].append(e['entry'])
         else:
-            if not close_group(['direct', e['entry']]): prog.append([['direct', e['entry']], False])
+            if not close_group(['direct', e['entry']]): prog.append([['direct', e['entry']], bool(e.get('caught'))])
     close_group()
     si = SESSION_OPTS[case['opts']] != {}
     return {'op': 'emit', 'si': si, 'ddl': case['opts'] == 'ddl', 'pool': bool(case['warm']), 'bodyRaises': False, 'faults': [], 'prog': prog}, real
@@ -614,11 +632,19 @@ def project_events(obs):
     return out
 
 
-def emit_request_fault(case, obs, base_req):
+def emit_request_fault(case, obs, base_req, parent_obs):
     """a run with injected faults against the emitter: the program is the one reconstructed from the fault-free parent run, the
     failure oracle is "the k-th statement-level call raises" read off the real run (close() never asks the oracle)"""
     if any(f[2] == 'after' or f[1] in FOREIGN for f in case['faults']): return None
-    if any(op[0] == 'try' for op in case['program']): return None     # a fault inside the user's try/except is swallowed: the ops reconstructed from the parent run carry no `caught` marks
+    if obs['swallowed']:
+        # the user's try/except swallowed a failure and the session went on.  Comparable only when the program step that failed is a
+        # single-statement step (raw statement, db.insert, bulk delete, a SELECT ...): a step of several statements that is cut short,
+        # or a failed flush, leaves other work undone, so the later flushes of this run differ from the fault-free parent's
+        for e in obs['events']:
+            if e['outcome'] != 'ok' and e.get('caught'):
+                own = [p for p in parent_obs['events'] if p.get('step') == e.get('step') and p['call'] in ('execute', 'executemany')
+                       and not (p['kind'] or '').startswith(('pragma', 'begin'))]
+                if len(own) != 1 or own[0].get('flush_id') is not None: return None
     real = project_events(obs)
     if real is None: return None
     if any(e['call'] == 'close' and e['outcome'] != 'ok' for e in obs['events']): return None
@@ -988,7 +1014,7 @@ def check_entry_points(ctx, cases, res):
     # runs with injected faults: same program (from the fault-free parent), failure oracle read off the real run
     for c in cases:
         if not c['faults'] or c.get('parent') not in base_req: continue
-        r = emit_request_fault(c, res[c['id']], base_req[c['parent']])
+        r = emit_request_fault(c, res[c['id']], base_req[c['parent']], res[c['parent']])
         if r is None: continue
         reqs.append(r[0]); meta.append((c, r[1]))
     if not reqs or not ctx.driver.ok: return
@@ -1023,7 +1049,7 @@ def run(ctx):
         ponyutil.rmtree(workdir)
 
 
-QUICK_FULL_FAULTS = ('raw', 'm2m', 'commit_mid', 'hooks', 'oflush_delete', 'oflush_update', 'oflush_create', 'bulk_first', 'rawconn_after_read', 'rawconn_after_commit')      # every call index, quick tier too
+QUICK_FULL_FAULTS = ('retry_after_read', 'retry_flush', 'raw', 'm2m', 'commit_mid', 'hooks', 'oflush_delete', 'oflush_update', 'oflush_create', 'bulk_first', 'rawconn_after_read', 'rawconn_after_commit')      # every call index, quick tier too
 THOROUGH_FULL_KILLS = ('rawconn_after_read', 'rawconn_after_commit', 'raw', 'm2m', 'commit_mid', 'hooks', 'oflush_delete', 'bulk_first', 'db_insert_first', 'dup_caught')
 QUICK_FULL_KILLS = ('commit_mid', 'oflush_delete', 'bulk_first', 'rawconn_after_read')
 
@@ -1031,7 +1057,10 @@ QUICK_FULL_KILLS = ('commit_mid', 'oflush_delete', 'bulk_first', 'rawconn_after_
 def _run(ctx, workdir):
     rng = ctx.rng
     template = os.path.join(workdir, 'template.sqlite')
-    make_template(template)
+    try: make_template(template)
+    except Exception:
+        ctx.divergence('plain sessions that build the test database raised', {'setup': 'make_template'}, impl=traceback.format_exc()[-1500:])
+        return
     if not ctx.driver.ok: ctx.note('driver unavailable: correspondence skipped, property oracle only')
     pg_part(ctx)
 
@@ -1054,12 +1083,19 @@ def _run(ctx, workdir):
     t0 = time.time()
     for b in baselines:
         obs = res[b['id']]
-        if 'crash' in obs: raise RuntimeError('harness crashed on %r:\n%s' % (case_json(b), obs['crash']))
+        if 'crash' in obs:
+            ctx.divergence('the real code raised outside the session under test (setup / teardown of the case)', case_json(b), impl=obs['crash'][-1500:])
+            b['crashed'] = True; continue
         n = len(obs['events'])
         ks = list(range(n))
         qfull = b['name'] in QUICK_FULL_FAULTS and not b['warm'] and (not b['sqlwarm'] or b['name'] in ('bulk_first', 'oflush_delete'))
         full = ctx.thorough or qfull
-        if not full: ks = sorted(rng.sample(ks, min(len(ks), 3)))
+        if not full:
+            ks = set(rng.sample(ks, min(len(ks), 3)))
+            # always: a fault at every BEGIN and at every call made inside the user's try/except (the error is swallowed, the session goes on)
+            if any(op[0] == 'try' for op in b['program']):
+                ks |= {i for i, e in enumerate(obs['events']) if e['kind'] == 'begin' or e.get('caught')}
+            ks = sorted(ks)
         for k in ks:
             cls = EXC_CLASSES[(b['id'] + k) % len(EXC_CLASSES)].__name__
             call = obs['events'][k]['call']
@@ -1100,10 +1136,13 @@ def _run(ctx, workdir):
     ctx.extra['run_groups'] = list(run_cases.timing)
 
     # ---- 3. model ---------------------------------------------------------------------------------------------------
-    inproc = [c for c in g.cases if c['kill'] is None and c.get('timed') is None]
+    for c in g.cases:
+        if 'crash' in res[c['id']] and not c.get('crashed'):
+            ctx.divergence('the real code raised outside the session under test (setup / teardown of the case)', case_json(c), impl=res[c['id']]['crash'][-1500:])
+            c['crashed'] = True
+    inproc = [c for c in g.cases if c['kill'] is None and c.get('timed') is None and not c.get('crashed')]
     for c in inproc:
         obs = res[c['id']]
-        if 'crash' in obs: raise RuntimeError('harness crashed on %r:\n%s' % (case_json(c), obs['crash']))
         obs['model_events'], obs['model_idx'] = model_events(obs)
     models = {}
     tm = time.time()
@@ -1134,7 +1173,7 @@ def _run(ctx, workdir):
     for c in g.cases:
         r = res[c['id']]
         if c.get('timed') is not None:
-            if 'crash' in r: raise RuntimeError('harness crashed on timed kill:\n%s' % r['crash'])
+            if c.get('crashed'): continue
             ctx.case(['big', c['timed']], nontrivial=True, kind='timed-kill')
             if r['journal_left']: ctx.count('timed-kill:hot-journal-left')
             ctx.count('timed-kill:generations-done:%s' % ('0' if r['groups'] and r['groups'][0][0] == 0 else '1-9' if r['groups'] and r['groups'][0][0] < 10 else '10+'))
@@ -1144,8 +1183,7 @@ def _run(ctx, workdir):
                               {'timed_kill_delay': c['timed'], 'rows': BIG_ROWS}, observed=r['groups'], expected='one group: every row in the same generation',
                               key='timed-kill-partial')
             continue
-        if c['kill'] is None: continue
-        if 'crash' in r: raise RuntimeError('harness crashed on %r:\n%s' % (case_json(c), r['crash']))
+        if c['kill'] is None or c.get('crashed') or 'crash' in res[c['parent']]: continue
         base = res[c['parent']]
         ctx.case([c['program'], c['opts'], c['warm'], c['sqlwarm'], c['kill']], nontrivial=True, kind='kill')
         evaluate_kill(ctx, c, r, base, models.get(c['parent']))
